@@ -63,6 +63,10 @@ CLAIMS = {
    text='Theorems C12_ctor_size_vector/array, C12_ctor_value_init, C12_adopt_keeps, C12_access(_inb) (every access hits a cell below the container size, via C01_range), C12_write_frame (a write changes exactly its cell, via C01_inj), C12_view_alias(_rw), C12_copy_independent, C12_move_transfers, C12_size, and the history theorems C12_step_inv / C12_run / C12_run_access_safe: for every sequence of construct / adopt / copy / move / assign / write operations the invariant (container length >= span for live objects, pairwise distinct buffers) holds in every reachable state. Tied by random op sequences on mdarray<int, E, L, vector|array<int,64>> (7 layouts x 3 index types x 6 patterns) with observations of extents, strides, container size, size(), all container elements, aliasing between every pair of live objects and views, const and non-const reads and the position of the referenced element inside the container, compared with the model (APool) and with an independent executable statement of the property.',
    tech='Lean 4 invariant proof over operation histories + transcript correspondence of op sequences',
    note='The pinned tree returned container().size() from size() (fixed: f73e550).'),
+ 'C16': dict(ref='7/C16', partial='overload resolution and the type traits are the compiler\'s; the model speaks about type descriptors and constraint expressions.',
+   text='Theorems C16_ext_constructible/explicit, implicit_total, C16_map_constructible / C16_map_explicit / C16_map_convertible / C16_map_mandates (Impl = Spec for all five layouts, every rank, every static/dynamic pattern and padding value), C16_lr_rank, C16_stride_to_lr_explicit, C16_to_stride_implicit, C16_acc, C16_mds, C16_mds_convertible, C16_indexArgs/indexCall/arrayArg(_explicit)/mdsIndexCtor, map_implicit_total and implicit_to_stride_total (an implicit conversion has no precondition). Tied by is_constructible_v / is_convertible_v / is_invocable_v probes over 3500 (thorough 20000) ordered pairs from a universe of 351 mapping types, 400 mdspan pairs and 700 argument packs, compared with the Impl.* functions and with an independent encoding of the specification table; every conversion the traits accept is also instantiated (a body that does not compile is a violation) and sampled Mandates-violating pairs must be rejected by the compiler.',
+   tech='Lean 4 proof (Impl = Spec) + compile-time trait probes + instantiation and mandate probes',
+   note='Two genuine defects were found here and repaired (inverted Mandates check; left_padded<->right_padded conversion across extents types did not compile).'),
 }
 NOT_YET = 'check not built yet (work in progress; DESIGN.md section 7 describes the planned proof and correspondence)'
 
